@@ -15,9 +15,9 @@ CONSTS = {  # name -> constants of MC_Source_<name>.cfg that the harness needs
 QUICK = {
     "C07": ["NtsV4", "NtsV5"],
     "C08": ["PlainV4", "PlainAuto", "NtsV5"],
-    "C09": ["PlainV4", "PlainV5", "NtsV4"],
-    "C10": ["PlainV4", "PlainV5"],
-    "C11": ["PlainV4", "NtsV4"],
+    "C09": ["PlainV4", "PlainV5", "NtsV4", "PlainAuto"],
+    "C10": ["PlainV4", "PlainV5", "PlainAuto"],
+    "C11": ["PlainV4", "NtsV4", "PlainAuto", "PlainV5"],
     "C12": ["PlainAuto", "PlainV4", "NtsV5"],
     "C13": ["NtsV4", "NtsV5"],
     "C14": ["NtsV4", "NtsV5", "PlainV5"],
